@@ -17,7 +17,7 @@ RULE = ("trajectories of generated worlds (heterogeneous voltages, three-phase m
         "after each run every analysis function is recomputed in plain Python from the recorded rates, the scenario's voltages / "
         "phases / constraint dictionaries and the sessions; constraint subsets are requested in random order; non-trivial = "
         ">=2 distinct voltages and a subset query whose order differs from network order; distinct = history signature + query")
-PROBES = ["concurrent_callers", "thread_switches", "subset_reordered", "hetero_voltage", "nema_checked", "nema_zero_mean", "threshold_query", "unserved_session", "requery_after_update_constraint", "requery_after_remove_constraint", "degenerate_subset_request",
+PROBES = ["concurrent_callers", "thread_switches", "subset_reordered", "hetero_voltage", "nema_checked", "nema_zero_mean", "threshold_query", "unserved_session", "requery_after_update_constraint", "requery_after_remove_constraint", "same_instant_two_zones", "degenerate_subset_request",
           "magnitudes_flag_true", "complex_return", "refused_add_then_corrected"]
 FAULT_DIMENSION = "none - post-run oracle on recorded trajectories (crash+rerun only diversifies the trajectories)"
 ASSUMPTIONS = ["constraint currents are compared by magnitude (either complex or real return passes)",
@@ -249,6 +249,28 @@ def check(sc):
                         if off_:
                             out.add("C18/datetimes", "entry %d is %s, expected %s" % (k, da[k], w))
                             break
+            # two finished simulations alive in one process whose starts denote the SAME instant in different time zones (two sites
+            # of one operator): each one's datetime array is anchored at its own wall-clock start
+            rz = sub(sc["seed"], "two_zones")
+            if not out.viol and n >= 1 and rz.random() < 0.25:
+                import copy as _copy
+                import zoneinfo
+                za_, zb_ = rz.sample(["UTC", "America/Los_Angeles", "Asia/Kolkata", "Europe/Berlin", "Australia/Sydney"], 2)
+                base_ = build_start(sc["sim"]).replace(tzinfo=None).replace(tzinfo=zoneinfo.ZoneInfo(za_))
+                out.probe("same_instant_two_zones")
+                for zz_ in (za_, zb_, za_):
+                    twin_ = _copy.copy(sim)
+                    twin_.start = base_.astimezone(zoneinfo.ZoneInfo(zz_))
+                    dz_ = analysis.datetimes_array(twin_)
+                    w0_ = np.datetime64(twin_.start.replace(tzinfo=None))
+                    try:
+                        bad_ = len(dz_) != n or abs((np.datetime64(dz_[0], "us") - w0_) / np.timedelta64(1, "us")) > 2
+                    except (OverflowError, ValueError):
+                        bad_ = True
+                    if bad_:
+                        out.add("C18/datetimes", "simulation starting %s (the same instant as another simulation alive in this process, in another zone): first entry %s, "
+                                "expected its own wall-clock start %s" % (twin_.start.isoformat(), dz_[0] if len(dz_) else None, w0_))
+                        break
             # caller threads: several report generators read one finished simulation at the same time; the seed decides the
             # interleaving of their steps inside the library (dsim/threads.py); each must get what it gets alone
             rt = sub(sc["seed"], "threads")
